@@ -23,7 +23,7 @@ func init() {
 			p.Jobs = append(p.Jobs, Job{Harness: "opset13.H_C08", Case: c})
 		}
 		// Transpose
-		tshapes := [][]int{{3}, {2, 3}, {1, 2}, {2, 1, 3}, {2, 2, 2}}
+		tshapes := [][]int{{3}, {2, 3}, {1, 2}, {2, 1, 3}, {2, 2, 2}, {2, 1, 2}, {1, 3, 3}} // incl. a unit axis next to two axes of EQUAL extent
 		if th {
 			tshapes = append(tshapes, []int{1, 2, 3}, []int{3, 1, 2}, []int{2, 1, 2, 3})
 		}
@@ -63,6 +63,10 @@ func init() {
 		}
 		add(map[string]interface{}{"op": "Slice", "shape": []int{2, 2}, "n": 2, "axes": false, "steps": false, "extremes": false})
 		add(map[string]interface{}{"op": "Slice", "shape": []int{2}, "n": 1, "axes": true, "steps": true, "extremes": false})
+		// two sliced axes named explicitly, in any order (each range belongs to the axis listed at its position)
+		for _, ax := range [][]int{{1, 0}, {-1, 0}, {0, 1}, {-1, -2}} {
+			add(map[string]interface{}{"op": "Slice", "shape": []int{2, 3}, "n": 2, "axes": true, "steps": false, "extremes": false, "axes_given": ax})
+		}
 		// Gather
 		for _, c := range []struct {
 			shape, ishape []int
